@@ -1,4 +1,5 @@
 import Tibc.Props.C11
+import Tibc.Expect.Packet
 #print axioms Tibc.C11.relay_forward_iff
 #print axioms Tibc.C11.relay_reject_error_ack
 #print axioms Tibc.C11.relay_ack_passthrough
